@@ -87,7 +87,7 @@ impl E {
     }
     fn show(&self) -> String {
         let v = |i: &usize| VNAMES[*i].to_string();
-        let terms = |t: &Vec<(usize, ScalarSpec)>| t.iter().map(|(i, c)| format!("({},{})", v(i), c.short())).collect::<Vec<_>>().join(",");
+        let terms = |t: &Vec<(usize, ScalarSpec)>| if t.len() > 12 { format!("{} terms", t.len()) } else { t.iter().map(|(i, c)| format!("({},{})", v(i), c.short())).collect::<Vec<_>>().join(",") };
         match self {
             E::Var(i) => format!("Lc::from({})", v(i)),
             E::Const(c) => format!("Lc::from({})", c.short()),
@@ -175,7 +175,8 @@ impl E {
 }
 
 fn gen_terms(ch: &mut Choices) -> Vec<(usize, ScalarSpec)> {
-    let n = ch.below(5);
+    // now and then a very long term list
+    let n = if ch.chance(6) { 100 + ch.below(400) } else { ch.below(5) };
     (0..n).map(|_| (ch.below(NV), if ch.chance(30) { ScalarSpec::Zero } else { ScalarSpec::gen(ch) })).collect()
 }
 
